@@ -146,8 +146,8 @@ def section_roles(P, F):
     if cur:
         for x in decls:
             t = norm.render(P, x["c"][0], nocast=True).replace(" ", "")
-            if t in ("(%s+1)" % cur, "(1+%s)" % cur, "%s+1" % cur) and "next_section" not in roles:
-                roles["next_section"] = x["n"]
+            if re.match(r"^\(?(%s[+-]\d+|\d+\+%s)\)?$" % (re.escape(cur), re.escape(cur)), t) and "next_section" not in roles:
+                roles["next_section"] = x["n"]       # the neighbour; that it is current + 1 is what rule I1 checks
     return roles
 
 
